@@ -371,7 +371,7 @@ func TestVerifC09Udp(t *testing.T) {
 	r := NewVRand(VSeed())
 	hist := 3000
 	if VThorough() {
-		hist = 30000
+		hist = 100000
 	}
 	for h := 0; h < hist; h++ {
 		w := newC09UdpWorld(st, stat)
@@ -478,7 +478,7 @@ func TestVerifC09Fwd(t *testing.T) {
 	r := NewVRand(VSeed() + 11)
 	hist := 4000
 	if VThorough() {
-		hist = 40000
+		hist = 120000
 	}
 	for h := 0; h < hist; h++ {
 		n := 1 + r.Intn(4)
@@ -1253,7 +1253,7 @@ func TestVerifC09Ctl(t *testing.T) {
 	routing := c09Routing()
 	n := 2000
 	if VThorough() {
-		n = 20000
+		n = 70000
 	}
 	for i := 0; i < n; i++ {
 		rr := r.Fork()
